@@ -12,5 +12,6 @@ python3-vt -c "
 import sys
 sys.path[:0]=['lib','engines/mirsym']
 import kernels
-print(kernels.emit_mir())"
+print(kernels.emit_mir())
+print(kernels.emit_mir_parser())"
 echo setup ok
